@@ -87,8 +87,11 @@ pub fn run(ctx: &Ctx) -> Rec {
       Some(s) => guarded(|| adss::recover(&s).map(|c| c.get_message()).map_err(|e| e.to_string())).unwrap_or(Err("panic".into())),
     };
     what = format!("adss::recover -> {:?}; expected message {}", out.as_ref().map(|m| hex_short(m)), hex_short(&exp));
+    // as in the monitor: acceptance of an altered first share is only a violation
+    // when at least 16 authenticated bytes (|C|+|D|) make a chance match negligible
+    let strong = crate::layout::AdssShare::decode(&coll[0]).map(|p| p.c.len() + p.d.len() >= 16).unwrap_or(true);
     reproduced = Some(match &out {
-      Ok(m) => m != &exp || sig.starts_with("altered-first-share-accepted"),
+      Ok(m) => m != &exp || (sig.starts_with("altered-first-share-accepted") && strong),
       Err(_) => false,
     });
   } else if let (Some(reps), Some(sel)) = (hexes(&w["reports_hex"]), w["selection"].as_array()) {
